@@ -10,6 +10,8 @@ for name in sorted(os.listdir(os.path.join(ROOT, "seeded"))):
     m = json.load(open(path))
     det = m.get("detected_by") or []
     caught = [d["check"] for d in det if d["exit"] == 1]
+    if m.get("superseded"):
+        caught = ["(%s when written; neutralised since by a repair commit, see meta.json)" % m["property"]]
     missed = [d["check"] for d in det if d["exit"] == 0]
     summary = (m.get("summary") or "").replace("|", "/").replace("\n", " ")
     if len(summary) > 230:
